@@ -480,7 +480,9 @@ def key_id(kt, v):
 
 
 class ValGen:
-    def __init__(self, uni, rng, big=False, max_depth=4, minimal=False, alternate=False):
+    def __init__(self, uni, rng, big=False, max_depth=4, minimal=False, alternate=False, wide=0):
+        self.wide = wide            # the first container met gets this many elements (flat, wide values)
+        self.short = wide > 0       # ... of short strings
         self.u = uni
         self.rng = rng
         self.big = big
@@ -510,17 +512,20 @@ class ValGen:
         if k in SCALARS:
             return ('s', gen_scalar(k, rng))
         if k == 'string':
-            return ('b', b'' if self.minimal and depth > 1 else gen_bytes(rng, self.big))
+            return ('b', b'' if self.minimal and depth > 1 else self.bytes_())
         if k == 'binary':
             if rng.chance(1, 6):
                 return ('bn',)
-            return ('b', b'' if self.minimal and depth > 1 else gen_bytes(rng, self.big))
+            return ('b', b'' if self.minimal and depth > 1 else self.bytes_())
         if k in ('list', 'set'):
-            if rng.chance(1, 8):
+            w, self.wide = self.wide, 0
+            if not w and rng.chance(1, 8):
                 return ('ln',)
             n = self.count(LIST_SIZES, BIG_LIST_SIZES, depth, t[1])
             if self.minimal:
                 n = 0 if depth > 1 else rng.pick([2, 3, 5, 6])
+            if w:
+                n = w
             if self.alternate:
                 n = max(n, 2) if depth < 2 else n
                 out = []
@@ -531,13 +536,16 @@ class ValGen:
                 return ('l', out)
             return ('l', [self.val(t[1], depth + 1) for _ in range(n)])
         if k == 'map':
-            if rng.chance(1, 8):
+            w, self.wide = self.wide, 0
+            if not w and rng.chance(1, 8):
                 return ('mn',)
             n = self.count(MAP_SIZES, BIG_MAP_SIZES, depth, t[2])
             if self.alternate and depth < 2:
                 n = max(n, 2)
             if self.minimal:
                 n = 0 if depth > 1 else rng.pick([2, 3, 5])
+            if w:
+                n = w
             es, seen = [], set()
             for _ in range(n * 3):
                 if len(es) >= n:
@@ -570,6 +578,11 @@ class ValGen:
                 h = self.unknown_bytes()
             return ('t', h, fs)
         raise ValueError(t)
+
+    def bytes_(self):
+        if self.short:
+            return bytes((self.rng.below(26) + 97) for _ in range(self.rng.pick([0, 1, 3, 5, 5, 5])))
+        return gen_bytes(self.rng, self.big)
 
     def count(self, small, bigs, depth, et):
         rng = self.rng
